@@ -12,6 +12,13 @@ UNIT = {
         dict(cls='variable_order', name='getVarByLevel', file=H),
         dict(cls='variable_order', name='getLevelByVar', file=H),
         dict(cls='variable_order', name='exchange', file=C),
+        dict(cls='variable_order', name='is_compatible_with', file=C, sel=r'^const variable_order& order$', where='out', loops=1, cname='variable_order__is_compatible_with_order'),
+    ],
+    'foreign': {'getVarByLevel': {'*': 'variable_order'}, 'getLevelByVar': {'*': 'variable_order'}},
+    'text_subst': [
+        # std::vector<int>::size() of the two maps == ghost_n + 1 (see 'stubs')
+        (r'order\.level2var\.size\(\)', '(order.ghost_n + 1)', C),
+        (r'(?<![\w.])level2var\.size\(\)', '(this->ghost_n + 1)', C),
     ],
     'stubs': ['std::vector<int> is modelled as a plain int array of ghost_n+1 cells; vector::assign(n,0) as a fresh zero-filled array (text_subst, must fire twice)'],
     'assumptions': ['the constructor loop (varorder.cc:29) is not covered: its memory safety needs "every order[i] is in range", a quantified precondition the SAT back end cannot take', 'the node rewriting of swapAdjacentVariables and the reordering heuristics are not covered: only the order bookkeeping every swap goes through'],
@@ -19,6 +26,7 @@ UNIT = {
     'jobs': [
         job('vord_exchange', 'variable_order__exchange'),
         job('vord_getters', 'lemma_vord_getters'),
+        job('vord_is_compatible_with', 'variable_order__is_compatible_with_order', loops=1),
         job('vord_exchange_twice_is_identity', 'lemma_exchange_twice'),
     ],
 }
